@@ -15,7 +15,9 @@ PROP = {'lean_props': ['Comrak.Props.C08'],
                        'sentinel'],
  'strength': 'full for the line splitter and the process_line prelude (the sequence of lines the block parser reads is proved invariant under '
              'each rewrite, for every text); the step from "same lines" to "same HTML" is covered by the relational search on the real code; '
-             'two raw-text readers outside the splitter (front matter split, total_size budget) violate the statement and are listed findings',
+             'of the two raw-text readers outside the splitter, the front matter split reads lines the same way since /repo commits d92265f / ef24343 '
+             '(Lean: C20.front_matter_any_line_endings; the former CR-only finding is status=fixed), the total_size budget violates the statement '
+             'and is a listed finding',
  'trusted_base': ['the block parser reads the text only through process_line (tied by the line tap: every process_line call of the real parser is '
                   'compared with the model) plus the two listed raw-text readers (split_off_front_matter, total_size)',
                   'the model carries the remaining input s[buffer..] as a list instead of the index buffer'],
@@ -33,8 +35,10 @@ TEXT = {'text': 'Proof. Parser::feed/finish (outer loop, inner scan, NUL -> U+FF
          '(argument, line after sentinel, offset, line number) equal the model on every string of <= 7 (quick) / 8 (thorough) symbols over '
          '{a, space, LF, CR, NUL, BOM} and on generated documents with line-ending noise. The whole-parser step (same lines => same HTML, skipped '
          'prefix treated as absent) is searched on the real code: markdown_to_html(x) vs markdown_to_html(T x) for the rewrites over generated '
-         'documents x random option vectors. Two genuine violations are listed as known findings: front matter with CR-only line endings is not '
-         'recognised, and the reference-expansion budget max(total_size, 100000) depends on the raw byte count.',
+         'documents x random option vectors (the extra relation "any mix of line endings -> LF" now also with a front-matter delimiter set). One '
+         'genuine violation is listed as a known finding: the reference-expansion budget max(total_size, 100000) depends on the raw byte count. '
+         'The former second one (front matter with CR-only line endings was not recognised) is repaired in /repo commit d92265f and status=fixed; '
+         'its replay is kept.',
  'note': 'Trusted: Lean kernel + standard axioms; harness/driver/line-tap hook; "the parser reads the text only through process_line" is tied by '
          'the tap, not proved; the L4 step is search, not proof.',
  'technique': 'Lean 4 theorems about a loop-shaped model of feed() and its structural specification (list induction) + exhaustive/random '
